@@ -16,13 +16,13 @@ ASSUMPTIONS = [
     "arithmetic per level, only the batched inverse FFT may round differently; bitwise-equal slices are counted",
     "duplicated level indices and tuples are outside 'any subset, list or array' and are not generated",
 ]
-MIN_NONTRIVIAL = {"quick": 150, "thorough": 2000}
-TIMEOUT = {"quick": 900, "thorough": 3000}
+MIN_NONTRIVIAL = {"quick": 150, "thorough": 6400}
+TIMEOUT = {"quick": 900, "thorough": 7000}
 T = {"double": 1e-13, "single": 2e-6}
 
 
 def cases(tier, seed):
-    n = 240 if tier == "quick" else 3600
+    n = 240 if tier == "quick" else 14400
     kinds = ["scalar", "single", "ascending", "descending", "shuffled", "with_top_first", "full", "full_reversed"]
     out_ = [{"seed": seed, "idx": i, "sel": kinds[i % len(kinds)]} for i in range(n)]
     if tier == "thorough":
